@@ -9,39 +9,55 @@ Local Open Scope N_scope.
 Lemma map_to_of (s : list N) : map Z.to_N (map Z.of_N s) = s.
 Proof. induction s as [|c s IH]; cbn; [reflexivity|]. now rewrite N2Z.id, IH. Qed.
 
-Ltac hit x := match goal with |- context [ms ?v (Seq (Chr ?cs) ?r) ?i ?c] => rewrite (ms_seq_chr_hit v cs r i c x eq_refl eq_refl) end.
-Ltac miss x := match goal with |- context [ms ?v (Seq (Chr ?cs) ?r) ?i ?c] => rewrite (ms_seq_chr_miss v cs r i c x eq_refl eq_refl) end.
-Ltac rmiss x := match goal with |- context [ms ?v (Seq (Rep ?g (Chr ?cs) (S ?lo) ?hi) ?r) ?i ?c] => rewrite (ms_seq_rep1_miss v g cs lo hi r i c x eq_refl eq_refl) end.
+(* Tactics that decide, for a value whose first characters are known, whether a generated pattern matches from the start -- by walking the
+   pattern's head: anchor, single class characters (hit / miss), a mandatory class repetition (miss), and finally the shape
+   "class characters to the end of the text".  They read the class sets and the pattern from the goal, so they do not depend on how the
+   generator numbers them or on the order in which the source tests the patterns. *)
+Ltac auto_hit := match goal with |- context [ms ?v (Seq (Chr ?cs) ?r) ?i ?c] =>
+  let x := eval cbv in (nth_error v i) in match x with Some ?y => rewrite (ms_seq_chr_hit v cs r i c y eq_refl eq_refl) end end.
+Ltac auto_miss := match goal with |- context [ms ?v (Seq (Chr ?cs) ?r) ?i ?c] =>
+  let x := eval cbv in (nth_error v i) in match x with Some ?y => rewrite (ms_seq_chr_miss v cs r i c y eq_refl eq_refl) end end.
+Ltac auto_rmiss := match goal with |- context [ms ?v (Seq (Rep ?g (Chr ?cs) (S ?lo) ?hi) ?r) ?i ?c] =>
+  let x := eval cbv in (nth_error v i) in match x with Some ?y => rewrite (ms_seq_rep1_miss v g cs lo hi r i c y eq_refl eq_refl) end end.
 
-(* a value "$9$" ++ body, body non-empty and free of white space, is classified as juniper type 9 *)
-Theorem dollar9_is_classified_juniper : forall body, body <> [] -> Forall (fun c => in_cset c G_fn_sir.cs2 = true) body ->
+Lemma no_success_no_match val r : ms val r 0%nat [] = [] -> match_start val r = None.
+Proof. intros Hr. unfold match_start, match_at. rewrite m_is_first_of_ms, Hr. reflexivity. Qed.
+Lemma head_success_match val r p rest : ms val r 0%nat [] = p :: rest -> match_start val r = Some p.
+Proof. intros Hr. unfold match_start, match_at. rewrite m_is_first_of_ms, Hr. reflexivity. Qed.
+
+(* a value "$9$" ++ body, body non-empty over the $9$ alphabet, is classified as juniper type 9 by the generated function *)
+Theorem dollar9_is_classified_juniper : forall body, body <> [] -> Forall (fun c => In c NUM_ALPHA) body ->
   check_format (36 :: 57 :: 36 :: body) = F_JUNIPER.
 Proof.
-  intros body Hne Hall. unfold check_format, gen__check_sensitive_item_format.
+  intros body Hne Hall. unfold check_format, gen__check_sensitive_item_format, re_match_ast.
   set (val := 36 :: 57 :: 36 :: body).
-  assert (M0 : match_start val RX_LIT0 <> None).
-  { unfold match_start, match_at. rewrite m_is_first_of_ms. unfold RX_LIT0.
-    rewrite ms_seq_bol. hit 36. hit 57. hit 36.
-    match goal with |- context [ms val (Seq (Rep true (Chr ?cs) 1 None) Eol) 3%nat []] => destruct (rep1_then_eol_head val cs 3 []) as (rest & ->) end.
-    - unfold val. destruct body; [congruence|]. cbn [length]. lia.
-    - intros j x Hj Hx. unfold val in Hx. do 3 (destruct j as [|j]; [lia|]). cbn [nth_error] in Hx.
-      rewrite Forall_forall in Hall. apply Hall. eapply nth_error_In. exact Hx.
-    - cbn. discriminate. }
-  assert (none : forall r, ms val r 0%nat [] = [] -> match_start val r = None).
-  { intros r Hr. unfold match_start, match_at. rewrite m_is_first_of_ms, Hr. reflexivity. }
-  assert (M1 : match_start val RX_LIT1 = None) by (apply none; unfold RX_LIT1; rewrite ms_seq_bol; hit 36; miss 57; reflexivity).
-  assert (M2 : match_start val RX_LIT2 = None) by (apply none; unfold RX_LIT2; rewrite ms_seq_bol; hit 36; miss 57; reflexivity).
-  assert (M3 : match_start val RX_LIT3 = None) by (apply none; unfold RX_LIT3; rewrite ms_seq_bol; rmiss 36; reflexivity).
-  assert (M4 : match_start val RX_LIT4 = None) by (apply none; unfold RX_LIT4; rewrite ms_seq_bol; miss 36; reflexivity).
-  assert (M5 : match_start val RX_LIT5 = None) by (apply none; unfold RX_LIT5; rewrite ms_seq_bol; rmiss 36; reflexivity).
-  unfold re_match_ast. rewrite map_to_of.
-  destruct (match_start val RX_LIT0) as [p0|]; [|congruence].
-  cbn [bind bindS truthy]. rewrite map_to_of, M1. cbn [bind bindS truthy]. rewrite map_to_of, M2. cbn [bind bindS truthy].
-  rewrite map_to_of, M3. cbn [bind bindS truthy]. rewrite map_to_of, M4. cbn [bind bindS truthy]. rewrite map_to_of, M5.
-  reflexivity.
+  assert (Hlen : (3 < length val)%nat) by (unfold val; destruct body; [congruence|]; cbn [length]; lia).
+  assert (Hfrom : forall cs, forallb (fun c => in_cset c cs) NUM_ALPHA = true -> all_from val cs 3).
+  { intros cs Hcs j x Hj Hx. unfold val in Hx. do 3 (destruct j as [|j]; [lia|]). cbn [nth_error] in Hx.
+    rewrite forallb_forall in Hcs. apply Hcs. rewrite Forall_forall in Hall. apply Hall. eapply nth_error_In. exact Hx. }
+  repeat (cbn [bind bindS truthy]; rewrite ?map_to_of;
+    match goal with |- context [match_start val ?R] =>
+      first
+      [ let H := fresh "Mnone" in
+        assert (H : match_start val R = None)
+          by (apply no_success_no_match; unfold R; rewrite ms_seq_bol; repeat auto_hit; first [auto_miss|auto_rmiss]; reflexivity);
+        rewrite H
+      | let H := fresh "Msome" in
+        assert (H : exists p, match_start val R = Some p)
+          by (unfold R; rewrite ?ms_seq_bol;
+              match goal with |- exists p, match_start val ?r = Some p =>
+                assert (Hms : exists rest, ms val r 0%nat [] = (length val, []) :: rest);
+                [ rewrite ms_seq_bol; repeat auto_hit;
+                  match goal with |- context [ms val (Seq (Rep true (Chr ?cs) 1 None) Eol) 3%nat []] =>
+                    destruct (rep1_then_eol_head val cs 3 [] Hlen (Hfrom cs ltac:(vm_compute; reflexivity))) as (rest0 & ->) end;
+                  cbn [app]; eexists; reflexivity
+                | destruct Hms as (rest & Hms); eexists; exact (head_success_match val r _ rest Hms) ]
+              end);
+        destruct H as (? & ->) ]
+    end).
+  rewrite ?map_to_of. cbn [bind bindS truthy call]. reflexivity.
 Qed.
 Print Assumptions dollar9_is_classified_juniper.
-
 
 (* ------------------------------------------------------------------------------------------------------------------------------
    _anonymize_value never raises: for every raw value, lookup, reserved list and salt the model returns a result, or reports that the
@@ -62,7 +78,6 @@ Proof.
 Qed.
 
 Lemma alphabet_small : forallb (fun c => c <? 256) NUM_ALPHA = true. Proof. vm_compute. reflexivity. Qed.
-Lemma alphabet_nonspace : forallb (fun c => in_cset c G_fn_sir.cs2) NUM_ALPHA = true. Proof. vm_compute. reflexivity. Qed.
 Lemma magic_is : MAGIC = [36; 57; 36]. Proof. vm_compute. reflexivity. Qed.
 
 Lemma starts_with_split p s : starts_with p s = true -> s = p ++ skipn (length p) s.
@@ -82,8 +97,7 @@ Proof.
 Qed.
 Lemma decrypt_ok_is_juniper val d : JunModel.decrypt val = JOk d -> check_format val = F_JUNIPER.
 Proof.
-  intro H. destruct (decrypt_ok_shape val d H) as (body & -> & Hne & Hall). apply dollar9_is_classified_juniper; [exact Hne|].
-  pose proof alphabet_nonspace as A. rewrite forallb_forall in A. eapply Forall_impl; [|exact Hall]. cbn beta. intros c Hc. apply A. exact Hc.
+  intro H. destruct (decrypt_ok_shape val d H) as (body & -> & Hne & Hall). apply dollar9_is_classified_juniper; assumption.
 Qed.
 Lemma alphabet_bytes x : Forall (fun c => In c NUM_ALPHA) x -> bytes x.
 Proof. pose proof alphabet_small as A. rewrite forallb_forall in A. intro H. eapply Forall_impl; [|exact H]. cbn beta. intros c Hc. apply N.ltb_lt. apply A. exact Hc. Qed.
